@@ -28,6 +28,9 @@ def check(ctx):
     # concatenate: the target declares exactly the requested fields and the row builder is given the same names (shared with C16)
     from checks import C16
     C16.concatenate_target_schema(ctx)
+    # ... and the rows of the target are rebuilt from those names, one per source row, for every resource of the run; one descriptor
+    # for the run of streams that are chained (shared with C16 / C10)
+    C16.concatenate_clauses(ctx)
     # 2b. rows re-read from a stream file / reused checkpoint carry values of their declared types only if every tagged value
     #     is decoded back (the decoder swallows parse errors and returns the tag dict): writer / reader agreement of the encoding
     from checks import C07
